@@ -5,6 +5,7 @@ pub mod alloc_count;
 pub mod engine_codec;
 pub mod engine_acct;
 pub mod engine_evlog;
+pub mod engine_files;
 pub mod engine_http;
 pub mod engine_sync;
 pub mod prop_c01;
@@ -24,6 +25,7 @@ pub mod prop_c20;
 pub mod prop_merge;
 pub mod prop_c16;
 pub mod prop_c18;
+pub mod prop_c17;
 
 use framework::PropertyDef;
 
@@ -44,6 +46,7 @@ pub fn registry() -> Vec<PropertyDef> {
         prop_c20::def(),
         prop_c16::def(),
         prop_c18::def(),
+        prop_c17::def(),
     ]
 }
 
